@@ -147,6 +147,10 @@ func c07Oracle(s stepInfo) (kind, msg string) {
 
 // rExplore enumerates all histories up to depth over alpha on one connection of a world built from e.
 func rExplore(c *Ctx, e *rEnv, alpha []rPkt, depth int, keepLog bool, scope string, onStep func(hist []rPkt, s stepInfo) (string, string), onEnd func(hist []rPkt)) {
+	rExploreOpt(c, e, alpha, depth, keepLog, scope, false, onStep, onEnd)
+}
+
+func rExploreOpt(c *Ctx, e *rEnv, alpha []rPkt, depth int, keepLog bool, scope string, tokens bool, onStep func(hist []rPkt, s stepInfo) (string, string), onEnd func(hist []rPkt)) {
 	rw, err := newRWorld(e.Cfg, e.KC, keepLog)
 	if err != nil {
 		panic(err)
@@ -169,7 +173,7 @@ func rExplore(c *Ctx, e *rEnv, alpha []rPkt, depth int, keepLog bool, scope stri
 		for d := 0; d < depth && rc.M.Open; d++ {
 			p := alpha[ch.Choose(len(alpha))]
 			hist = append(hist, p)
-			c.Cur(rCase{KC: e.KCMode, Scope: scope, Hist: hist})
+			c.Cur(rCase{KC: e.KCMode, Scope: scope, Hist: hist, Tokens: tokens})
 			info, err := rw.deliverR(rc, d, p)
 			if err != nil {
 				c.Abort("hang", fmt.Sprintf("%v after %s", err, rHistString(hist)), rCase{KC: e.KCMode, Scope: scope, Hist: hist})
@@ -177,7 +181,7 @@ func rExplore(c *Ctx, e *rEnv, alpha []rPkt, depth int, keepLog bool, scope stri
 			c.R.Trans(1)
 			c.R.State(evid.Hash(rc.M.Key()))
 			if kind, msg := onStep(hist, info); msg != "" {
-				c.R.ViolateMin(kind, fmt.Sprintf("history %s (keychain=%q): step %d: %s", rHistString(hist), e.KCMode, d, msg), rCase{KC: e.KCMode, Scope: scope, Hist: append([]rPkt{}, hist...)}, len(hist))
+				c.R.ViolateMin(kind, fmt.Sprintf("history %s (keychain=%q): step %d: %s", rHistString(hist), e.KCMode, d, msg), rCase{KC: e.KCMode, Scope: scope, Hist: append([]rPkt{}, hist...), Tokens: tokens}, len(hist))
 				ok = false
 				break
 			}
@@ -225,7 +229,10 @@ func rReplay(c *Ctx, raw json.RawMessage, keepLog bool, onStep func(hist []rPkt,
 	if cs.Tokens {
 		sec = tokenSecrets(c.Seed)
 	}
-	e := newREnv(sec, cs.KC)
+	rReplayEnv(c, newREnv(sec, cs.KC), cs, keepLog, onStep)
+}
+
+func rReplayEnv(c *Ctx, e *rEnv, cs rCase, keepLog bool, onStep func(hist []rPkt, s stepInfo) (string, string)) {
 	rw, err := newRWorld(e.Cfg, e.KC, keepLog)
 	if err != nil {
 		panic(err)
